@@ -3,6 +3,7 @@ package main
 import (
 	"fmt"
 	"go/types"
+	"strings"
 )
 
 // owns <expr> (function contract): the map or slice the expression denotes at entry belongs to this call alone -
@@ -52,6 +53,40 @@ func (f *Frame) restoreOwned(old *State) {
 				continue
 			}
 			f.vc.set(f.cur, comp, store(cur, o.ref, sel(prev, o.ref)))
+		}
+	}
+}
+
+// unmatchedSites: a site clause that matched no operation of the function generates no obligation at all - a silent
+// hole (typically a wrong pattern).  It is reported like any clause that does not bind to the code.
+func (f *Frame) unmatchedSites(ct *FuncContract, key string) {
+	for _, s := range ct.Sites {
+		if s.Label == "" {
+			continue
+		}
+		found := false
+		for _, o := range f.vc.obls {
+			if o.Kind != "site" || !strings.HasPrefix(o.Name, key+"#") {
+				continue
+			}
+			n := o.Name
+			if i := strings.LastIndex(n, "#"); i > len(key)+1 && i+1 < len(n) && strings.Trim(n[i+1:], "0123456789") == "" {
+				n = n[:i] // "#2" suffix of repeated labels
+			}
+			if strings.HasSuffix(n, ":"+s.Label) {
+				found = true
+			}
+		}
+		if !found {
+			already := false
+			for _, u := range f.vc.unbound {
+				if strings.HasPrefix(u, key+": site "+s.Kind) {
+					already = true // an evaluation error of that kind of site was reported
+				}
+			}
+			if !already {
+				f.vc.unbound = append(f.vc.unbound, fmt.Sprintf("%s: site %s %s %s matches no operation of the function", key, s.Kind, s.Pattern, s.Label))
+			}
 		}
 	}
 }
